@@ -272,7 +272,11 @@ def compileGSUB(featureFile, glyphOrder, fvar=None):
     font.setGlyphOrder(glyphOrder)
     if fvar:
         font["fvar"] = fvar
-    addOpenTypeFeatures(font, featureFile, tables={"GSUB"})
+    # feaLib's builder resolves variable scalars in place (it overwrites the anchors
+    # and value records of the feature file it is given with their default values),
+    # so the temporary table is built from a copy: statements that earlier feature
+    # writers have already added keep their variations
+    addOpenTypeFeatures(font, deepcopy(featureFile), tables={"GSUB"})
     return font.get("GSUB")
 
 
